@@ -675,7 +675,87 @@ def run(tier="quick", replay=None):
     R.floor("R14.a", "panic-capable sites inventoried", sum(inv.values()), 200)
 
     check_bounded(prog, reach, R, table, used)
+    check_file_recursion(prog, R)
     return R.finalize()
+
+
+def check_file_recursion(prog, R):
+    """R14.c: the preprocessor follows include forms recursively and the depth of that recursion is controlled by the
+    FILES (a file that includes itself).  Every preprocessor function that reads a file and lies on a call-graph cycle
+    must only be entered through a guard: a membership test of the file's name in a collection the preprocessor keeps,
+    whose positive edge leads to an error and which dominates the call."""
+    from paths import err_assign_blocks
+    READ = "read_new_file"
+    pre = {p: g for p, g in prog.fns.items() if p.startswith("compiler::preprocessor::Preprocessor::") and g.kind != "Closure"}
+    edges = {p: {c for _, t in g.calls() for c in prog.call_targets(t) if c in pre} for p, g in pre.items()}
+    for p in pre:            # closures run in their creator's frame
+        for cl in prog.closures_of(p):
+            edges[p] |= {c for _, t in cl.calls() for c in prog.call_targets(t) if c in pre}
+
+    def reaches(a, b):
+        seen, todo = set(), [a]
+        while todo:
+            x = todo.pop()
+            for y in edges.get(x, ()):
+                if y == b:
+                    return True
+                if y not in seen:
+                    seen.add(y)
+                    todo.append(y)
+        return False
+    readers = [p for p, g in pre.items()
+               if any((callee_of(t) or t.get("callee") or "").endswith(READ) for _, t in g.calls()) and reaches(p, p)]
+    R.floor("R14.c", "recursive file-reading functions in the preprocessor", len(readers), 2)
+
+    def is_guard(g, target):
+        gfl = Flow(g)
+        tests = []
+        for bb, t in g.calls():
+            c = callee_of(t) or ""
+            if c.rsplit("::", 1)[-1] in ("contains", "contains_key", "insert") and \
+                    any(k in c for k in ("slice", "Vec", "HashSet", "BTreeSet", "HashMap", "BTreeMap", "[T]")):
+                recv = op_place(t["args"][0]) if t["args"] else None
+                if recv is not None and 1 in gfl.back_pure([gfl.node(recv)]):
+                    tests.append((bb, t))
+        calls = [bb for bb, t in g.calls() if target in prog.call_targets(t)]
+        if not tests or not calls:
+            return False
+        errb = set(err_assign_blocks(g))
+        for tb, tt in tests:
+            nxt = tt.get("target")
+            sw = g.term(nxt) if nxt is not None else None
+            if not sw or sw["k"] != "switch":
+                continue
+            arms = dict((v, x) for v, x in sw["arms"])
+            present = sw["otherwise"] if 0 in arms else arms.get(1)
+            absent = arms.get(0, sw["otherwise"])
+            if (callee_of(tt) or "").endswith("insert"):
+                present, absent = absent, present        # insert() answers false when the element was present
+            if present is None or absent is None:
+                continue
+            pres_region = g.reachable(present, avoid=[absent])
+            if not (pres_region & errb):
+                continue
+            if any(cb in pres_region and cb not in g.reachable(absent) for cb in calls):
+                continue
+            if all(g.dominates(tb, cb) for cb in calls):
+                return True
+        return False
+    import inline
+    for p in sorted(readers):
+        g = pre[p]
+        callers = sorted(q for q in pre if p in edges[q] and q != p)
+        # a guard split into a helper (enter_include) is seen through inlining
+        def guard_view(q):
+            f0 = pre[q]
+            base = inline.default_pred(prog, f0)
+            return inline.inlined(prog, f0, pred=lambda h: base(h) and inline.same_module(f0, h) and h.path not in readers and h.path != p, depth=1)
+        guarded = bool(callers) and all(is_guard(guard_view(q), p) for q in callers)
+        R.check(guarded, "R14.c", "R14.c|guarded-file-recursion|%s" % p.rsplit("::", 1)[-1], "%s:%s" % (g.file, g.line),
+                "auto: only entered through %s, which rejects a file that is already being read" % ", ".join(c.rsplit("::", 1)[-1] for c in callers),
+                "%s reads a file and can re-enter itself through the forms of that file, but is not entered only through a guard "
+                "that rejects a file already being read (callers: %s): a file that includes itself recurses until the stack "
+                "overflows" % (p, ", ".join(c.rsplit("::", 1)[-1] for c in callers) or "none"), fn=p)
 
 
 def option_is_some_everywhere(f, ctx, op):
